@@ -14,44 +14,44 @@ package vm
 //@ def sameDomain(m) = (forall a4 machine.AccountAddress :: has(m.Balances, a4) == old(has(m.Balances, a4)) && m.Balances[a4] == old(m.Balances[a4])) && m.Balances == old(m.Balances)
 
 //@ func (*vm.Machine).withdrawAll
-//@   requires wf(m) && overdraft != nil
-//@   requires hasB(m, account, asset) ==> m.Balances[account][asset] != nil
+//@   requires wf(m) && overdraft != nil && mark(account, asset) && balNonNil(m)
 //@   ensures err != nil <==> !old(hasB(m, account, asset))
 //@   ensures err != nil ==> ret0 == nil
 //@   ensures err == nil ==> ret0 != nil && len(ret0.Parts) == 1 && ret0.Asset == asset && ret0.Parts[0].Account == account && ret0.Parts[0].Amount != nil
 //@   ensures err == nil ==> val(ret0.Parts[0].Amount) == max(0, old(bal(m, account, asset)) + val(overdraft))
 //@   ensures err == nil ==> bal(m, account, asset) == old(bal(m, account, asset)) - val(ret0.Parts[0].Amount)
 //@   ensures err == nil ==> bal(m, account, asset) >= min(old(bal(m, account, asset)), 0 - val(overdraft))      // the floor of C01
+//@   ensures err == nil ==> total(ret0.Parts) == val(ret0.Parts[0].Amount) && allNonNeg(ret0.Parts) && (forall a machine.AccountAddress :: sumFor(ret0.Parts, a) == ite(a == account, val(ret0.Parts[0].Amount), 0))
 //@   ensures forall a machine.AccountAddress, s machine.Asset :: (a != account || s != asset) ==> bal(m, a, s) == old(bal(m, a, s)) && hasB(m, a, s) == old(hasB(m, a, s))
 //@   ensures hasB(m, account, asset) == old(hasB(m, account, asset)) && (hasB(m, account, asset) ==> m.Balances[account][asset] != nil)
 //@   ensures err != nil ==> bal(m, account, asset) == old(bal(m, account, asset))
-//@   ensures wf(m) && sameDomain(m)
+//@   ensures wf(m) && sameDomain(m) && balNonNil(m)
 //@   modifies map[machine.Asset]*machine.MonetaryInt, machine.Funding.*
 //@   nopanic
 //@   property C01
 
 //@ func (*vm.Machine).withdrawAlways
-//@   requires wf(m) && mon.Amount != nil
-//@   requires hasB(m, account, mon.Asset) ==> m.Balances[account][mon.Asset] != nil
+//@   requires wf(m) && mon.Amount != nil && mark(account, mon.Asset) && balNonNil(m)
 //@   ensures err != nil <==> !old(hasB(m, account, mon.Asset))
 //@   ensures err == nil ==> ret0 != nil && len(ret0.Parts) == 1 && ret0.Asset == mon.Asset && ret0.Parts[0].Account == account && ret0.Parts[0].Amount == mon.Amount
 //@   ensures err == nil ==> bal(m, account, mon.Asset) == old(bal(m, account, mon.Asset)) - val(mon.Amount)
+//@   ensures err == nil ==> total(ret0.Parts) == val(mon.Amount) && (val(mon.Amount) >= 0 ==> allNonNeg(ret0.Parts)) && (forall a machine.AccountAddress :: sumFor(ret0.Parts, a) == ite(a == account, val(mon.Amount), 0))
 //@   ensures forall a machine.AccountAddress, s machine.Asset :: (a != account || s != mon.Asset) ==> bal(m, a, s) == old(bal(m, a, s)) && hasB(m, a, s) == old(hasB(m, a, s))
 //@   ensures err != nil ==> bal(m, account, mon.Asset) == old(bal(m, account, mon.Asset))
-//@   ensures wf(m) && sameDomain(m)
+//@   ensures wf(m) && sameDomain(m) && balNonNil(m)
 //@   modifies map[machine.Asset]*machine.MonetaryInt, machine.Funding.*
 //@   nopanic
 //@   property C01
 
 //@ func (*vm.Machine).credit
-//@   requires wf(m)
+//@   requires wf(m) && balNonNil(m) && mark(account, funding.Asset)
 //@   requires forall j in 0..len(funding.Parts) :: funding.Parts[j].Amount != nil
 //@   ensures (account != "world" && old(hasB(m, account, funding.Asset))) ==> bal(m, account, funding.Asset) == old(bal(m, account, funding.Asset)) + total(funding.Parts)
 //@   ensures (account == "world" || !old(hasB(m, account, funding.Asset))) ==> bal(m, account, funding.Asset) == old(bal(m, account, funding.Asset))
 //@   ensures forall a machine.AccountAddress, s machine.Asset :: (a != account || s != funding.Asset) ==> bal(m, a, s) == old(bal(m, a, s))
 //@   ensures forall a machine.AccountAddress, s machine.Asset :: hasB(m, a, s) == old(hasB(m, a, s))
-//@   ensures wf(m) && sameDomain(m)
-//@   loop 1 invariant 0 - 1 <= rangeindex && rangeindex < len(funding.Parts)
+//@   ensures wf(m) && sameDomain(m) && balNonNil(m)
+//@   loop 1 invariant 0 - 1 <= rangeindex && rangeindex < len(funding.Parts) && balNonNil(m)
 //@   loop 1 invariant wf(m) && sameDomain(m) && accBalance == m.Balances[account] && has(m.Balances, account) && account != "world"
 //@   loop 1 invariant bal(m, account, funding.Asset) == old(bal(m, account, funding.Asset)) + total(funding.Parts[:rangeindex+1])
 //@   loop 1 invariant forall a machine.AccountAddress, s machine.Asset :: (a != account || s != funding.Asset) ==> bal(m, a, s) == old(bal(m, a, s))
@@ -63,16 +63,120 @@ package vm
 //@   property C01
 
 //@ func (*vm.Machine).repay
-//@   requires wf(m)
-//@   requires forall j in 0..len(funding.Parts) :: funding.Parts[j].Amount != nil && (funding.Parts[j].Account != "world" ==> has(m.Balances, funding.Parts[j].Account))
+//@   requires wf(m) && balNonNil(m)
+//@   requires forall j in 0..len(funding.Parts) :: funding.Parts[j].Amount != nil
 //@   ensures forall a machine.AccountAddress :: a != "world" ==> bal(m, a, funding.Asset) == old(bal(m, a, funding.Asset)) + sumFor(funding.Parts, a)
 //@   ensures forall a machine.AccountAddress, s machine.Asset :: (s != funding.Asset || a == "world") ==> bal(m, a, s) == old(bal(m, a, s))
-//@   ensures wf(m) && sameDomain(m)
+//@   ensures wf(m) && sameDomain(m) && balNonNil(m)
 //@   loop 1 invariant 0 - 1 <= rangeindex && rangeindex < len(funding.Parts)
-//@   loop 1 invariant wf(m) && sameDomain(m)
+//@   loop 1 invariant wf(m) && sameDomain(m) && balNonNil(m)
 //@   loop 1 invariant forall a machine.AccountAddress :: a != "world" ==> bal(m, a, funding.Asset) == old(bal(m, a, funding.Asset)) + sumFor(funding.Parts[:rangeindex+1], a)
 //@   loop 1 invariant forall a machine.AccountAddress, s machine.Asset :: (s != funding.Asset || a == "world") ==> bal(m, a, s) == old(bal(m, a, s))
 //@   loop 1 decreases len(funding.Parts) - rangeindex
 //@   modifies map[machine.Asset]*machine.MonetaryInt
-//@   nopanic
+//@   note a part whose account has no balance table panics (nil map write); that path is C12's concern and is not constrained here
+//@   property C01
+
+// ---- the interpreter step
+// Quantities of C01, all computed from the machine state (no history needed):
+//   live(a,t)  = funds of account a, asset t, held by Funding values on the stack
+//   sentv/recvd = what the postings emitted so far take from / give to a
+//   D(a,t)     = bal + live + sentv - recvd : never increases, so everything an
+//                account sends or has in flight came out of its tracked balance
+//                or was received earlier in the same transaction.
+// valok: a value the VM may hold: one of the machine value types (not a program resource descriptor), with non-nil numbers
+//@ def valok(x) = !typeis(x, "program.Constant") && !typeis(x, "program.Variable") && !typeis(x, "program.VariableAccountMetadata") && !typeis(x, "program.VariableAccountBalance") && !typeis(x, "program.Monetary") && (typeis(x, "machine.Funding") ==> allNonNeg(as(x, "machine.Funding").Parts)) && (typeis(x, "machine.Monetary") ==> as(x, "machine.Monetary").Amount != nil) && (typeis(x, "*machine.MonetaryInt") ==> as(x, "*machine.MonetaryInt") != nil)
+//@ fold stackOK(s []machine.Value) bool = all x :: valok(x)
+//@ fold noFunding(s []machine.Value) bool = all x :: !typeis(x, "machine.Funding") && valok(x)
+//@ fold postingsOK(s []Posting) bool = all x :: x.Amount != nil && val(x.Amount) >= 0
+//@ fold live(s []machine.Value, a machine.AccountAddress, t machine.Asset) int = sum x :: ite(typeis(x, "machine.Funding") && as(x, "machine.Funding").Asset == t, sumFor(as(x, "machine.Funding").Parts, a), 0)
+//@ fold liveF(s []machine.Funding, a machine.AccountAddress, t machine.Asset) int = sum x :: ite(x.Asset == t, sumFor(x.Parts, a), 0)
+//@ fold fundingsOK(s []machine.Funding) bool = all x :: allNonNeg(x.Parts)
+//@ fold sentv(s []Posting, a machine.AccountAddress, t machine.Asset) int = sum x :: ite(x.Source == a && x.Asset == t, val(x.Amount), 0)
+//@ fold recvd(s []Posting, a machine.AccountAddress, t machine.Asset) int = sum x :: ite(x.Destination == a && x.Asset == t, val(x.Amount), 0)
+//@ def D(m, a, t) = bal(m, a, t) + live(m.Stack, a, t) + sentv(m.Postings, a, t) - recvd(m.Postings, a, t)
+//@ def balNonNil(m) = forall a5 machine.AccountAddress, s5 machine.Asset :: hasB(m, a5, s5) ==> m.Balances[a5][s5] != nil
+//@ def minv(m) = wf(m) && stackOK(m.Stack) && postingsOK(m.Postings) && noFunding(m.Resources) && balNonNil(m)
+//@ def opIs(m, o) = old(m.Program.Instructions[m.P]) == o
+//@ def top(m, k) = m.Stack[len(m.Stack)-1-k]
+
+//@ func (*vm.Machine).tick
+//@   requires minv(m)
+// compiler side condition: OP_TAKE_ALWAYS is only emitted after OP_TAKE_MAX, whose "missing" monetary it consumes; that value is never negative
+//@   assumes m.Program.Instructions[m.P] == program.OP_TAKE_ALWAYS && len(m.Stack) > 0 && typeis(m.Stack[len(m.Stack)-1], "machine.Monetary") ==> val(as(m.Stack[len(m.Stack)-1], "machine.Monetary").Amount) >= 0
+// compiler side condition: the monetary operand of OP_SAVE is a resource pushed by the two APUSH before it (a literal, a
+// validated variable or a balance() lookup), none of which can be negative
+//@   assumes m.Program.Instructions[m.P] == program.OP_SAVE && len(m.Stack) > 1 && typeis(m.Stack[len(m.Stack)-2], "machine.Monetary") ==> val(as(m.Stack[len(m.Stack)-2], "machine.Monetary").Amount) >= 0
+//@   ensures ret1 == nil ==> minv(m) && sameDomain(m)
+//@   ensures ret1 == nil ==> (forall a machine.AccountAddress, t machine.Asset :: a != "world" ==> D(m, a, t) <= old(D(m, a, t)))
+// (T2)-(T5): where tracked balances may go down
+//@   ensures ret1 == nil && !opIs(m, program.OP_TAKE_ALL) && !opIs(m, program.OP_TAKE_ALWAYS) && !opIs(m, program.OP_SAVE) ==> (forall a machine.AccountAddress, t machine.Asset :: bal(m, a, t) >= old(bal(m, a, t)))
+//@   ensures ret1 == nil && opIs(m, program.OP_TAKE_ALL) ==> (forall a machine.AccountAddress, t machine.Asset :: (a != as(old(top(m, 1)), "machine.AccountAddress") || t != as(old(top(m, 0)), "machine.Monetary").Asset) ==> bal(m, a, t) >= old(bal(m, a, t)))
+//@   ensures ret1 == nil && opIs(m, program.OP_TAKE_ALL) ==> bal(m, as(old(top(m, 1)), "machine.AccountAddress"), as(old(top(m, 0)), "machine.Monetary").Asset) >= min(old(bal(m, as(top(m, 1), "machine.AccountAddress"), as(top(m, 0), "machine.Monetary").Asset)), 0 - val(as(old(top(m, 0)), "machine.Monetary").Amount))
+//@   ensures ret1 == nil && opIs(m, program.OP_TAKE_ALWAYS) ==> (forall a machine.AccountAddress, t machine.Asset :: a != as(old(top(m, 1)), "machine.AccountAddress") ==> bal(m, a, t) >= old(bal(m, a, t)))
+//@   ensures ret1 == nil && opIs(m, program.OP_SAVE) ==> (forall a machine.AccountAddress, t machine.Asset :: a != as(old(top(m, 0)), "machine.AccountAddress") ==> bal(m, a, t) == old(bal(m, a, t)))
+//@   ensures ret1 == nil && opIs(m, program.OP_SAVE) ==> (forall a machine.AccountAddress, t machine.Asset :: bal(m, a, t) <= old(bal(m, a, t)) && D(m, a, t) - bal(m, a, t) == old(D(m, a, t) - bal(m, a, t)))
+// a failed take is an insufficient-funds error, and the step reports whether the program is over
+//@   ensures opIs(m, program.OP_TAKE) && ret1 != nil && old(typeis(top(m, 0), "machine.Monetary") && typeis(top(m, 1), "machine.Funding") && as(top(m, 0), "machine.Monetary").Asset == as(top(m, 1), "machine.Funding").Asset) ==> typeis(ret1, "*machine.ErrInsufficientFund")
+//@   ensures ret1 != nil ==> ret0
+//@   modifies Machine.Stack, Machine.P, Machine.Postings, map[machine.Asset]*machine.MonetaryInt, map[string]machine.Value, map[machine.AccountAddress]map[string]machine.Value, machine.Funding.*, box machine.Allotment, box int
+//@   loop 1 invariant stackOK(m.Stack) && (forall a machine.AccountAddress, t machine.Asset :: live(m.Stack, a, t) == old(live(m.Stack, a, t)))
+//@   loop 2 invariant stackOK(m.Stack) && fundingsOK(fundings_rev[:i]) && 1 <= i && i <= n && len(fundings_rev) == n
+//@   loop 2 invariant forall a machine.AccountAddress, t machine.Asset :: live(m.Stack, a, t) + liveF(fundings_rev[:i], a, t) == old(live(m.Stack, a, t))
+//@   loop 3 invariant stackOK(m.Stack) && fundingsOK(fundings_rev[:n-i]) && 0 <= i && i <= n && len(fundings_rev) == n && allNonNeg(result.Parts)
+//@   loop 3 invariant forall a machine.AccountAddress, t machine.Asset :: live(m.Stack, a, t) + liveF(fundings_rev[:n-i], a, t) + ite(result.Asset == t, sumFor(result.Parts, a), 0) == old(live(m.Stack, a, t))
+//@   loop 4 invariant stackOK(m.Stack) && (forall a machine.AccountAddress, t machine.Asset :: live(m.Stack, a, t) == old(live(m.Stack, a, t)))
+//@   loop 5 invariant 0 - 1 <= rangeindex && rangeindex < len(funding.Parts) && postingsOK(m.Postings)
+//@   loop 5 invariant forall a machine.AccountAddress, t machine.Asset :: sentv(m.Postings, a, t) == old(sentv(m.Postings, a, t)) + ite(funding.Asset == t, sumFor(funding.Parts[:rangeindex+1], a), 0)
+//@   loop 5 invariant forall a machine.AccountAddress, t machine.Asset :: recvd(m.Postings, a, t) == old(recvd(m.Postings, a, t)) + ite(funding.Asset == t && dest == a, total(funding.Parts[:rangeindex+1]), 0)
+//@   property C01 C03
+
+// Execute: the invariant of tick holds at every step, so D never increases over a whole run.
+//@ func (*vm.Machine).Execute
+//@   requires minv(m)
+//@   ensures err == nil ==> minv(m) && (forall a machine.AccountAddress, t machine.Asset :: a != "world" ==> D(m, a, t) <= old(D(m, a, t)))
+//@   ensures err == nil ==> len(m.Stack) == 0
+//@   loop 1 invariant minv(m) && sameDomain(m) && m.Balances != nil && len(m.Resources) == len(m.UnresolvedResources)
+//@   loop 1 invariant forall a machine.AccountAddress, t machine.Asset :: a != "world" ==> D(m, a, t) <= old(D(m, a, t))
+//@   property C01
+
+// Run: an execution error yields no result; otherwise the postings handed to the ledger are the machine's, field by field, in order.
+//@ func vm.Run
+//@   requires m != nil && minv(m)
+//@   ensures err != nil ==> ret0 == nil
+//@   ensures err == nil ==> ret0 != nil && len(ret0.Postings) == len(m.Postings)
+//@   ensures err == nil ==> forall k in 0..len(m.Postings) :: ret0.Postings[k].Source == m.Postings[k].Source && ret0.Postings[k].Destination == m.Postings[k].Destination && ret0.Postings[k].Asset == m.Postings[k].Asset && ret0.Postings[k].Amount == m.Postings[k].Amount
+//@   loop 1 invariant 0 - 1 <= rangeindex && rangeindex < len(m.Postings) && len(result.Postings) == len(m.Postings)
+//@   loop 1 invariant forall k in 0..rangeindex+1 :: result.Postings[k].Source == m.Postings[k].Source && result.Postings[k].Destination == m.Postings[k].Destination && result.Postings[k].Asset == m.Postings[k].Asset && result.Postings[k].Amount == m.Postings[k].Amount
+//@   property C01 C09
+
+// the JSON views only build fresh metadata maps
+//@ func (*vm.Machine).GetTxMetaJSON
+//@   modifies map[string]string
+//@ func (*vm.Machine).GetAccountsMetaJSON
+//@   modifies map[string]string, map[string]metadata.Metadata
+
+// ---- the arithmetic that turns the per-step facts into C01 (ground, checked by the solver).
+// For one account (not world, never the operand of OP_TAKE_ALWAYS) and one asset:
+//   init  balance handed to the machine          recvd/sent  sums over the postings emitted so far
+//   bal   tracked balance                        saved       total moved aside by OP_SAVE
+//   live  funds of the account on the stack      floor       min(init, 0, -largest overdraft given to OP_TAKE_ALL)
+//@ lemma c01_running_balance(init int, recvd int, sent int, bal int, saved int, live int, floor int)
+//@   requires bal + saved + live + sent - recvd <= init
+//@   requires live >= 0 && saved >= 0
+//@   requires bal + saved >= floor
+//@   ensures init + recvd - sent >= floor
+//@   property C01
+//@ lemma c01_take_all_step(bal int, bal2 int, saved int, floor int, od int)
+//@   requires bal + saved >= floor && saved >= 0
+//@   requires bal2 >= min(bal, 0 - od)
+//@   ensures bal2 + saved >= min(floor, 0 - od)
+//@   property C01
+//@ lemma c01_save_step(bal int, bal2 int, saved int, d int, d2 int, floor int)
+//@   requires bal + saved >= floor && bal2 <= bal && d2 - bal2 == d - bal
+//@   ensures bal2 + (saved + (bal - bal2)) >= floor && saved + (bal - bal2) >= saved && d2 + (bal - bal2) == d
+//@   property C01
+//@ lemma c01_other_step(bal int, bal2 int, saved int, floor int)
+//@   requires bal + saved >= floor && bal2 >= bal
+//@   ensures bal2 + saved >= floor
 //@   property C01
